@@ -35,7 +35,9 @@ var c20Codecs = []c20Codec{
 	{"snappy", func() compress.Codec { return &snappy.Codec{} }},
 	{"gzip", func() compress.Codec { return &gzip.Codec{} }},
 	{"gzip-default", func() compress.Codec { return &gzip.Codec{Level: gzip.DefaultCompression} }},
-	{"brotli-default", func() compress.Codec { return &brotli.Codec{Quality: brotli.DefaultQuality, LGWin: brotli.DefaultLGWin} }},
+	{"brotli-default", func() compress.Codec {
+		return &brotli.Codec{Quality: brotli.DefaultQuality, LGWin: brotli.DefaultLGWin}
+	}},
 	{"brotli", func() compress.Codec { return &brotli.Codec{} }},
 	{"zstd", func() compress.Codec { return &zstd.Codec{} }},
 	{"lz4-fastest", func() compress.Codec { return &lz4.Codec{Level: lz4.Fastest} }},
